@@ -445,7 +445,16 @@ fn client_body(client: usize, plan: Arc<Plan>, db: Arc<DB>, out: Shared, log: Ar
                     continue;
                 }
                 let before: Option<BTreeSet<u64>> = match call("shape", || db.verif_shape()) {
-                    Called::Ok(s) => Some(s.files.iter().map(|f| f.number).collect()),
+                    Called::Ok(s) => {
+                        // the reported shape is well formed at any moment (C10), also mid-compaction
+                        let mut fs = vec![];
+                        crate::hist::check_shape_structure(&s, &mut fs, "concurrent run, writers and background thread active");
+                        with_out(&out, |o| o.stats.bump("shape_structure_checks_any_time", 1));
+                        for f in fs {
+                            push_finding(&out, f);
+                        }
+                        Some(s.files.iter().map(|f| f.number).collect())
+                    }
                     Called::Panicked { .. } => None,
                 };
                 let start = rt::next_seq();
